@@ -32,8 +32,58 @@ func CompareAndSwapUint64(p *uint64, o, n uint64) bool {
 	return atomic.CompareAndSwapUint64(p, o, n)
 }
 
-type Int32 = atomic.Int32
-type Int64 = atomic.Int64
-type Uint64 = atomic.Uint64
-type Bool = atomic.Bool
+// Typed atomics: every method is a scheduling point.
+
+type Bool struct{ v atomic.Bool }
+
+func (b *Bool) Load() bool       { vsched.Yield("atomic.Bool.Load", nil); return b.v.Load() }
+func (b *Bool) Store(x bool)     { vsched.Yield("atomic.Bool.Store", nil); b.v.Store(x) }
+func (b *Bool) Swap(x bool) bool { vsched.Yield("atomic.Bool.Swap", nil); return b.v.Swap(x) }
+func (b *Bool) CompareAndSwap(o, n bool) bool {
+	vsched.Yield("atomic.Bool.CAS", nil)
+	return b.v.CompareAndSwap(o, n)
+}
+
+type Int32 struct{ v atomic.Int32 }
+
+func (b *Int32) Load() int32         { vsched.Yield("atomic.Int32.Load", nil); return b.v.Load() }
+func (b *Int32) Store(x int32)       { vsched.Yield("atomic.Int32.Store", nil); b.v.Store(x) }
+func (b *Int32) Add(d int32) int32   { vsched.Yield("atomic.Int32.Add", nil); return b.v.Add(d) }
+func (b *Int32) Swap(x int32) int32  { vsched.Yield("atomic.Int32.Swap", nil); return b.v.Swap(x) }
+func (b *Int32) CompareAndSwap(o, n int32) bool {
+	vsched.Yield("atomic.Int32.CAS", nil)
+	return b.v.CompareAndSwap(o, n)
+}
+
+type Int64 struct{ v atomic.Int64 }
+
+func (b *Int64) Load() int64         { vsched.Yield("atomic.Int64.Load", nil); return b.v.Load() }
+func (b *Int64) Store(x int64)       { vsched.Yield("atomic.Int64.Store", nil); b.v.Store(x) }
+func (b *Int64) Add(d int64) int64   { vsched.Yield("atomic.Int64.Add", nil); return b.v.Add(d) }
+func (b *Int64) Swap(x int64) int64  { vsched.Yield("atomic.Int64.Swap", nil); return b.v.Swap(x) }
+func (b *Int64) CompareAndSwap(o, n int64) bool {
+	vsched.Yield("atomic.Int64.CAS", nil)
+	return b.v.CompareAndSwap(o, n)
+}
+
+type Uint32 struct{ v atomic.Uint32 }
+
+func (b *Uint32) Load() uint32        { vsched.Yield("atomic.Uint32.Load", nil); return b.v.Load() }
+func (b *Uint32) Store(x uint32)      { vsched.Yield("atomic.Uint32.Store", nil); b.v.Store(x) }
+func (b *Uint32) Add(d uint32) uint32 { vsched.Yield("atomic.Uint32.Add", nil); return b.v.Add(d) }
+func (b *Uint32) CompareAndSwap(o, n uint32) bool {
+	vsched.Yield("atomic.Uint32.CAS", nil)
+	return b.v.CompareAndSwap(o, n)
+}
+
+type Uint64 struct{ v atomic.Uint64 }
+
+func (b *Uint64) Load() uint64        { vsched.Yield("atomic.Uint64.Load", nil); return b.v.Load() }
+func (b *Uint64) Store(x uint64)      { vsched.Yield("atomic.Uint64.Store", nil); b.v.Store(x) }
+func (b *Uint64) Add(d uint64) uint64 { vsched.Yield("atomic.Uint64.Add", nil); return b.v.Add(d) }
+func (b *Uint64) CompareAndSwap(o, n uint64) bool {
+	vsched.Yield("atomic.Uint64.CAS", nil)
+	return b.v.CompareAndSwap(o, n)
+}
+
 type Value = atomic.Value
